@@ -291,6 +291,8 @@ def parse_native(text):
             res["panic"] = line[7:]
         elif line.startswith("panic: ") and res["panic"] is None:
             res["panic"] = line[7:]
+        elif line.startswith("fatal error: ") and res["panic"] is None:
+            res["panic"] = line
         elif line.startswith("ASSUME-FAIL"):
             res["assume_fail"] = True
         elif line.startswith("REPLAY-DONE"):
@@ -419,3 +421,91 @@ def save_replay(prop, doc):
 def pmap(fn, items, workers=NCPU):
     with ThreadPoolExecutor(max_workers=workers) as ex:
         return list(ex.map(fn, items))
+
+
+# ------------------------------------------------------------------ harnesses inside /repo packages (overlays)
+
+class RepoOverlay:
+    """A harness injected into a package of /repo through overlays: the engine
+    loads it with packages.Config.Overlay, native replays use `go test -overlay`.
+    Nothing is written to /repo."""
+
+    def __init__(self, w, pkg_rel, pkg_name, files, harness_names):
+        self.w, self.pkg_rel, self.pkg_name = w, pkg_rel, pkg_name
+        self.dir = os.path.join(w.dir, "ov_" + pkg_rel.replace("/", "_").replace(".", "root"))
+        os.makedirs(self.dir, exist_ok=True)
+        allf = dict(files)
+        allf["zz_sym.go"] = shim(pkg_name)
+        allf["zz_reg.go"] = "package %s\n\nvar symHarnesses = map[string]func(int){\n%s}\n" % (
+            pkg_name, "".join('\t"%s": %s,\n' % (h, h) for h in harness_names))
+        allf["zz_replay_test.go"] = REPLAY_TEST.replace("PKGNAME", pkg_name)
+        self.map = {}
+        for name, text in allf.items():
+            real = os.path.join(self.dir, name)
+            with open(real, "w") as f:
+                f.write(text)
+            self.map[os.path.join(REPO, pkg_rel, name)] = real
+        self.engine_overlay = os.path.join(self.dir, "engine_overlay.json")
+        with open(self.engine_overlay, "w") as f:
+            json.dump({k: v for k, v in self.map.items() if not k.endswith("_test.go")}, f)
+        self.go_overlay = os.path.join(self.dir, "go_overlay.json")
+        with open(self.go_overlay, "w") as f:
+            json.dump({"Replace": self.map}, f)
+        self.testbin = None
+
+    def engine(self, harness="", nmin=0, nmax=0, **kw):
+        return run_engine(self.w, pkgs="./" + self.pkg_rel if self.pkg_rel != "." else ".", harness=harness, nmin=nmin, nmax=nmax,
+                          dir=REPO, overlay=self.engine_overlay, under="github.com/mna/pigeon", **kw)
+
+    def build_test(self):
+        if self.testbin is not None:
+            return self.testbin or None
+        out = os.path.join(self.dir, "pkg.test")
+        r = subprocess.run(["go", "test", "-vet=off", "-c", "-overlay", self.go_overlay, "-o", out, "./" + self.pkg_rel], cwd=REPO,
+                           env=base_env(), capture_output=True, text=True, errors="replace")
+        if r.returncode != 0 or not os.path.exists(out):
+            log("native build of overlay harness failed:", r.stderr[-1500:])
+            self.testbin = ""
+            return None
+        self.testbin = out
+        return out
+
+    def native(self, harness, arg, model, timeout=120):
+        tb = self.build_test()
+        if tb is None:
+            res = parse_native("")
+            res["raw"] = "native test binary did not build"
+            return res
+        mp = os.path.join(self.dir, "model-%s.json" % hashlib.sha1(json.dumps([harness, arg, model], sort_keys=True).encode()).hexdigest()[:12])
+        with open(mp, "w") as f:
+            json.dump({"model": model}, f)
+        env = base_env()
+        env.update({"VERIF_REPLAY": mp, "VERIF_HARNESS": harness, "VERIF_ARG": str(arg)})
+        out, timed_out = run_group([tb, "-test.run", "TestReplay$", "-test.v"], cwd=os.path.join(REPO, self.pkg_rel), env=env, timeout=timeout)
+        res = parse_native(out)
+        if timed_out:
+            res["timeout"] = True
+            res["panic"] = None
+        return res
+
+    def native_batch(self, items, timeout=300):
+        tb = self.build_test()
+        if tb is None:
+            return None
+        bp = os.path.join(self.dir, "batch-%d.json" % int(time.time() * 1000))
+        with open(bp, "w") as f:
+            json.dump(items, f)
+        env = base_env()
+        env["VERIF_BATCH"] = bp
+        out, timed_out = run_group([tb, "-test.run", "TestReplayBatch$", "-test.v"], cwd=os.path.join(REPO, self.pkg_rel), env=env, timeout=timeout)
+        if timed_out:
+            return None
+        res, cur, buf = [], None, []
+        for line in out.splitlines():
+            if line.startswith("BEGIN "):
+                cur = int(line.split()[1]); buf = []
+            elif line.startswith("END ") and cur is not None:
+                res.append(parse_native("\n".join(buf))); cur = None
+            elif cur is not None:
+                buf.append(line)
+        return res if len(res) == len(items) else None
